@@ -313,8 +313,9 @@ def standin_roundtrip(tier, seed):
         Ts = sorted(rnd.sample(range(200, 1600, 25), k))
         lo, hi = (min(Ts + [298.15]) - 10, max(Ts + [298.15]) + 10)
         cp = {float(t): rnd.choice([0.0, round(rnd.uniform(-3, 30), 6), rnd.uniform(1, 20)]) for t in Ts}
-        H = rnd.choice([None, 0.0, -12.5, rnd.uniform(-200, 200)])
-        S = rnd.choice([None, 0.0, rnd.uniform(0, 80)])
+        # values whose repr() is an exponent form without a decimal point (1e-05): PyYAML's YAML-1.1 resolver hands them to the loader as TEXT
+        H = rnd.choice([None, 0.0, -12.5, rnd.uniform(-200, 200), 1e-05, -3e-07, 1e+16])
+        S = rnd.choice([None, 0.0, rnd.uniform(0, 80), 2e-06])
         rg = rnd.choice([None, (lo, hi)])
         try:
             with real.quiet():
@@ -359,8 +360,56 @@ def replay_rt(model, state, ob):
     return {'failed': False, 'input': 'round trip of %d correlations' % r['evaluations'], 'observed': 'all read back', 'expected': None}
 
 
+def u_float_loader(I):
+    """the loader of non-dimensional numbers (ND_H_ref, ND_S_ref, ND_Cp entries): what yaml_format writes with %r comes back either as a float or -- for an
+    exponent form WITHOUT a decimal point such as 1e-05, which the YAML 1.1 resolver of PyYAML does not take for a float -- as text; text that float() converts
+    is that number, other text is an input-data error, a missing value stays missing"""
+    ctx = I.ctx
+    BU = 'pgradd/yaml_io/builtins.py'
+    cls = source.module(BU).classes['float_loader']
+    form = ['missing', 'float', 'int', 'text'][ctx.choose([True] * 4, 'what the YAML layer hands over')]
+    FloatOK = z3.Function('float_accepts', z3.StringSort(), z3.BoolSort())
+    FloatOf = z3.Function('float_of_text', z3.StringSort(), z3.RealSort())
+
+    def fos(I_, s_):
+        if I_.ctx.branch(z3.Not(FloatOK(s_))):
+            raise I_.exc('ValueError', 'could not convert string to float')
+        return FloatOf(s_)
+    I.world.float_of_str = fos
+    val = {'missing': None, 'float': I.fresh('x', 'real'), 'int': I.fresh('k', 'int'), 'text': I.fresh('text', 'str')}[form]
+    o = Obj(cls, {}, 'param')
+    out = run_target(I, BU, 'float_loader.__call__', ['ND_H_ref', val, {}], self_obj=o)
+    bad = z3.Not(FloatOK(val)) if form == 'text' else z3.BoolVal(False)
+
+    def posts(r):
+        if form == 'missing':
+            return [('a missing value stays missing', z3.BoolVal(r is None))]
+        if form == 'text':
+            return [('text that float() converts is loaded as that number (exponent forms without a decimal point arrive as text)', z3.And(FloatOK(val), z3_of(r) == FloatOf(val)))]
+        return [('a number is loaded as itself', z3_of(r) == (val if form == 'float' else z3.ToReal(val)))]
+    check_outcome(I, out, raises={'InputDataError': bad}, returns=posts)
+    return {'inputs': {}}
+
+
+def replay_float_loader(model, state, ob):
+    import pgradd.ThermoChem  # noqa
+    from pgradd import yaml_io
+    from . import real
+    res = {}
+    for txt in ('1e-05', '-3e-07', '1e+16', '2.5'):
+        doc = 'T_ref: 298.15 K\nND_H_ref: %s\nND_S_ref: 1.0\n' % txt
+        with real.quiet():
+            k, v = real.outcome(lambda: yaml_io.load(yaml_io.parse(doc), {}, tag='!ThermochemGroup').ND_H_ref)
+        res[txt] = (k, v)
+    bad = {t: r for t, r in res.items() if r[0] != 'ok' or abs(r[1] - float(t)) > 1e-12 * abs(float(t))}
+    return {'failed': bool(bad), 'input': 'ND_H_ref: 1e-05 (what repr() writes) read back through the ThermochemGroup loader', 'observed': {k: str(v) for k, v in res.items()},
+            'expected': 'the numbers written'}
+
+
+replay_float_loader.model_free = True
 UNITS = [
     Unit('ThermochemIncomplete.yaml_format', (INC, 'ThermochemIncomplete.yaml_format'), u_yaml_format, replay_rt),
+    Unit('float_loader.__call__', ('pgradd/yaml_io/builtins.py', 'float_loader.__call__'), u_float_loader, replay_float_loader),
 ]
 # the reading half of the round trip: the loader contracts of C12 (missing parts stay missing, zero is data, no range stays no range)
 for _u in C12.UNITS:
